@@ -220,6 +220,13 @@ def main(argv: List[str]) -> int:
         add(text, 'document')
         for mtext in mutations(text, r, lexemes, 40 if quick else 120):
             add(mtext, 'mutation')
+        # structural mutations: every declaration of one kind removed (references without their tables, groups without their
+        # items, columns typed with an enum that is gone ...), and every single declaration removed
+        for kind in ('table', 'enum', 'ref', 'group', 'sticky', 'project'):
+            if any(d['d'] == kind for d in doc):
+                add(print_doc([d for d in doc if d['d'] != kind], seed, {}), 'kind removed')
+        for i in range(len(doc)):
+            add(print_doc(doc[:i] + doc[i + 1:], seed, {}), 'declaration removed')
     raws = [''.join(p) for n in range(0, 3 if quick else 4) for p in itertools.product(RAW_ALPHA, repeat=n)]
     for raw in raws:
         for q1, q2 in (("'", "'"), ('"', '"'), ("'''", "'''")):
